@@ -94,6 +94,7 @@ func (g *G) ctxCancel(c *CtxObj, err Value) {
 	}
 	c.err = err
 	if !c.done.closed {
+		g.hbRelease(c.done)
 		c.done.closed = true
 	}
 	g.run.obs = append(g.run.obs, c.String()+" cancelled")
